@@ -10,7 +10,7 @@ breaks the proofs.  Two ties to the running code:
    exact rationals (this is also a differential test of the reading of `@`, `.T`, `inv` and of the argument order);
  * numeric law sweep on the implementation only (shapes 1..30 x 1..40, diagonal / correlated / widely scaled SPD
    covariances, dense / rank-deficient / zero / strong / weak Jacobians): every clause of the property, incl. the
-   ones that are not proved (whole complex spectrum of A in [0,1), the two limits), with tolerances derived from
+   ones that are only partly proved (whole complex spectrum of A in [0,1), the two limits), with tolerances derived from
    the condition numbers of the diagonally normalised problem.
 
 Tolerances.  With d_a = sqrt(diag S_a), d_y = sqrt(diag S_y) the problem is rewritten in the normalised variables
@@ -35,8 +35,9 @@ TRUSTED = [
     "of the argument order is cross-checked by the exact-rational evaluation of the same source expressions against the running code",
     "numpy `@` / `.T` and scipy.linalg.inv compute matrix product, transpose and inverse up to rounding (bridged by "
     "conditioning-scaled tolerances case by case, never globally)",
-    "the complex spectrum of A and the two limits are checked numerically only (no spectral theory / analysis on matrices in the "
-    "installed Coq libraries); proved instead: eigenvalues in the ordered field lie in [0,1), S <= S_a",
+    "the complex spectrum of A and the passage to the two limits are checked numerically only (no spectral theory / topology on "
+    "matrices in the installed Coq libraries); proved instead: eigenvalues in the ordered field lie in [0,1), S <= S_a, and the "
+    "quadratic-form bounds x^T S x <= d x^T S_a x (prior d S_a) and x^T S x <= e x^T (K^T S_y^-1 K)^-1 x (noise e S_y)",
 ]
 U = 2.0 ** -53
 CONST = 32.0          # safety constant of the first-order error bounds
@@ -233,14 +234,14 @@ def check_case(fns, case, limits=False):
         bad.append(("smoothing_error-raises", f"smoothing_error fails / has the wrong shape for n = {n}: {e or s.shape}"))
     else:
         scale = (np.abs(Ain) @ (np.abs(x) + np.abs(xa)))
-        law("smoothing-linear", mx((s - (Ain @ x - Ain @ xa)) / np.maximum(scale, 1e-300)), 4 * (n + 2) * U,
+        law("smoothing-linear", mx((s - (Ain @ x - Ain @ xa)) / np.maximum(scale, 1e-300)), 8 * (n + 2) * U,
             "smoothing_error(x, x_a, A) differs from A x - A x_a")
         z, _ = call(fns["smoothing_error"], xa, xa, Ain)
         law("smoothing-zero", mx(z) if z is not None else np.inf, 0.0, "smoothing_error(x_a, x_a, A) is not zero")
         j = int(case.get("col", 0)) % n
         xi = np.round(xa)
         col, _ = call(fns["smoothing_error"], xi + I[j], xi, Ain)
-        law("smoothing-columns", mx(col - Ain[:, j]) if col is not None else np.inf, 4 * U * mx(Ain[:, j]),
+        law("smoothing-columns", mx(col - Ain[:, j]) if col is not None else np.inf, 16 * U * mx(Ain[:, j]),
             f"smoothing_error(x_a + e_{j}, x_a, A) is not column {j} of A")
     r, e = call(fns["retrieval_noise"], K, Sa, Sy, ey)
     if r is None or r.shape != (n,):
@@ -252,7 +253,7 @@ def check_case(fns, case, limits=False):
         j = int(case.get("col", 0)) % m
         col, _ = call(fns["retrieval_noise"], K, Sa, Sy, np.eye(m)[j])
         law("noise-columns", mx(col / N.da - Gt[:, j] / N.dy[j]) if col is not None else np.inf,
-            4 * U * mx(Gt[:, j] / N.dy[j]) + 1e-300, f"retrieval_noise(e_{j}) is not column {j} of retrieval_gain_matrix")
+            16 * U * mx(Gt[:, j] / N.dy[j]) + 1e-300, f"retrieval_noise(e_{j}) is not column {j} of retrieval_gain_matrix")
     # --- the two limits, as explicit bounds that tend to zero:
     #     ||I - A~|| = ||S~ Sa~^-1|| <= ||(K~^T Sy~^-1 K~)^-1|| ||Sa~^-1||   (K of full column rank)   [Sy -> eps Sy]
     #     ||A~|| = ||S~ K~^T Sy~^-1 K~|| <= ||Sa~|| ||K~^T Sy~^-1 K~||                                  [Sa -> delta Sa]
@@ -563,6 +564,12 @@ def exact_correspondence(ctx, fns):
                           [[str(q) for q in r] for r in model]))
             continue
         g2 = got.reshape(-1, 1) if got.ndim == 1 else got
+        want = {"error_covariance_matrix": (n, n), "retrieval_gain_matrix": (n, m), "averaging_kernel_matrix": (n, n),
+                "smoothing_error": (n,), "retrieval_noise": (n,)}[fn]
+        if got.shape != want:
+            fails.append((m * n, "failing-input", f"{fn}-shape", f"{fn} returns shape {got.shape} for a {m}x{n} Jacobian, expected {want}",
+                          case, got.tolist(), None))
+            continue
         if g2.shape != (len(model), len(model[0])):
             fails.append((m * n, "failing-input", f"{fn}-shape", f"{fn} returns shape {got.shape}, the exact value has shape "
                           f"{(len(model), len(model[0]))}", case, got.tolist(), None))
@@ -584,7 +591,9 @@ def exact_correspondence(ctx, fns):
         i = int(np.argmax(ratio))
         err, tol1 = float(np.abs(E).ravel()[i]), float(tol.ravel()[i])
         if not np.all(np.abs(E) <= tol):
-            fails.append((m * n, "failing-input", f"exact:{fn}", f"{fn} differs from the exact value of its defining expression by "
+            # the exact model follows the source expression, whatever it says: a deviation is a numerical / translation
+            # disagreement, not by itself a violation of the property (the law sweep decides that)
+            fails.append((m * n, "correspondence", f"exact:{fn}", f"{fn} differs from the exact value of its defining expression by "
                           f"{err:.3e} > tolerance {tol1:.3e} (normalised) for a {m}x{n} Jacobian", case, got.tolist(),
                           [[float(q) for q in r] for r in model]))
         elif np.any(c["K"] != 0) and not N.ill:
